@@ -41,20 +41,23 @@ type Program struct {
 	GOARCH   string
 
 	// lazily built
-	callers     map[*ssa.Function][]ssa.CallInstruction
-	descMemo    map[descKey]string
-	descBusy    map[descKey]bool
-	fieldStores map[fieldKey][]ssa.Value
-	fileOf      map[*token.File]*ast.File
-	fg          map[*ssa.Function]*funcGuards
-	entryMemo   map[*ssa.Function][]Lit
-	entryBusy   map[*ssa.Function]bool
-	boolSums    map[*ssa.Function]*boolSum
-	ov          map[ssa.Value]string
-	ovMemo      map[descKey]string
-	helperBusy  map[*ssa.Function]bool
-	boolSumsK   map[boolSumKey]*boolSum
-	pin         map[*ssa.Function]ssa.CallInstruction
+	callers       map[*ssa.Function][]ssa.CallInstruction
+	descMemo      map[descKey]string
+	descBusy      map[descKey]bool
+	fieldStores   map[fieldKey][]ssa.Value
+	fileOf        map[*token.File]*ast.File
+	fg            map[*ssa.Function]*funcGuards
+	entryMemo     map[*ssa.Function][]Lit
+	entryBusy     map[*ssa.Function]bool
+	boolSums      map[*ssa.Function]*boolSum
+	ov            map[ssa.Value]string
+	ovMemo        map[descKey]string
+	helperBusy    map[*ssa.Function]bool
+	boolSumsK     map[boolSumKey]*boolSum
+	pin           map[*ssa.Function]ssa.CallInstruction
+	callersHO     map[*ssa.Function][]ssa.CallInstruction // calls through function-typed parameters (depends on pins)
+	dynCalls      []ssa.CallInstruction                   // calls of function values not resolved in the first phase
+	noParamCallee bool
 }
 
 // Pinned runs f with fn considered to be called from call only (one calling context of a shared helper).
@@ -64,17 +67,68 @@ func (P *Program) Pinned(fn *ssa.Function, call ssa.CallInstruction, f func()) {
 		f()
 		return
 	}
-	sDesc, sFg, sEntry, sBool, sBoolK, sPin := P.descMemo, P.fg, P.entryMemo, P.boolSums, P.boolSumsK, P.pin
-	P.descMemo, P.fg, P.entryMemo, P.boolSums, P.boolSumsK = nil, nil, nil, nil, nil
+	P.PinnedAll(map[*ssa.Function]ssa.CallInstruction{fn: call}, f)
+}
+
+func (P *Program) PinnedAll(pins map[*ssa.Function]ssa.CallInstruction, f func()) {
+	if len(pins) == 0 {
+		f()
+		return
+	}
+	P.Callers(nil) // first phase built before pinning
+	sDesc, sFg, sEntry, sBool, sBoolK, sPin, sHO := P.descMemo, P.fg, P.entryMemo, P.boolSums, P.boolSumsK, P.pin, P.callersHO
+	P.descMemo, P.fg, P.entryMemo, P.boolSums, P.boolSumsK, P.callersHO = nil, nil, nil, nil, nil, nil
 	P.pin = map[*ssa.Function]ssa.CallInstruction{}
 	for k, v := range sPin {
 		P.pin[k] = v
 	}
-	P.pin[fn] = call
+	for k, v := range pins {
+		P.pin[k] = v
+	}
 	defer func() {
-		P.descMemo, P.fg, P.entryMemo, P.boolSums, P.boolSumsK, P.pin = sDesc, sFg, sEntry, sBool, sBoolK, sPin
+		P.descMemo, P.fg, P.entryMemo, P.boolSums, P.boolSumsK, P.pin, P.callersHO = sDesc, sFg, sEntry, sBool, sBoolK, sPin, sHO
 	}()
 	f()
+}
+
+// ContextPins: the calling context "inside root": every product helper that root (with its function literals, and,
+// transitively, the helpers so pinned) calls at exactly one place, but which has other callers elsewhere, is
+// pinned to that one call.
+func (P *Program) ContextPins(root *ssa.Function) (map[*ssa.Function]ssa.CallInstruction, map[*ssa.Function]bool) {
+	pins := map[*ssa.Function]ssa.CallInstruction{}
+	family := map[*ssa.Function]bool{}
+	var addFamily func(f *ssa.Function)
+	addFamily = func(f *ssa.Function) {
+		if family[f] {
+			return
+		}
+		family[f] = true
+		for _, a := range f.AnonFuncs {
+			addFamily(a)
+		}
+	}
+	addFamily(root)
+	for changed := true; changed; {
+		changed = false
+		calls := map[*ssa.Function][]ssa.CallInstruction{}
+		for f := range family {
+			allInstrs(f, func(b *ssa.BasicBlock, ins ssa.Instruction) {
+				if ci, ok := ins.(ssa.CallInstruction); ok {
+					if g := ci.Common().StaticCallee(); g != nil && P.IsProductFunc(g) && len(g.Blocks) > 0 && !family[g] {
+						calls[g] = append(calls[g], ci)
+					}
+				}
+			})
+		}
+		for g, cs := range calls {
+			if len(cs) == 1 && len(P.Callers(g)) >= 2 {
+				pins[g] = cs[0]
+				addFamily(g)
+				changed = true
+			}
+		}
+	}
+	return pins, family
 }
 
 type boolSumKey struct {
@@ -316,25 +370,47 @@ func allInstrs(fn *ssa.Function, f func(b *ssa.BasicBlock, ins ssa.Instruction))
 	}
 }
 
-// Callers returns the static in-module call sites of fn (product code only).
+// Callers returns the static in-module call sites of fn (product code only): direct calls, calls through a local
+// variable holding one function literal, and - second phase - calls through a function-typed parameter of a product
+// helper whose every (pinned) call site passes the same function literal.
 func (P *Program) Callers(fn *ssa.Function) []ssa.CallInstruction {
 	if P.callers == nil {
 		P.callers = map[*ssa.Function][]ssa.CallInstruction{}
+		P.noParamCallee = true
 		for _, f := range P.ModFuncs {
-			if f.Synthetic != "" && f.Synthetic != "range-over-func yield" {
+			if f.Synthetic != "" && f.Synthetic != "range-over-func yield" && !strings.HasPrefix(f.Synthetic, "instance of ") {
 				continue // wrappers / thunks synthesised by go/ssa are not source call sites
 			}
 			allInstrs(f, func(b *ssa.BasicBlock, ins ssa.Instruction) {
 				if ci, ok := ins.(ssa.CallInstruction); ok {
 					if callee := P.Callee(ci.Common()); callee != nil {
 						P.callers[callee] = append(P.callers[callee], ci)
+					} else if !ci.Common().IsInvoke() {
+						P.dynCalls = append(P.dynCalls, ci)
 					}
 				}
 			})
 		}
+		P.noParamCallee = false
 	}
 	if call, ok := P.pin[fn]; ok {
 		return []ssa.CallInstruction{call}
+	}
+	if P.noParamCallee {
+		return P.callers[fn]
+	}
+	if P.callersHO == nil {
+		ho := map[*ssa.Function][]ssa.CallInstruction{}
+		P.callersHO = map[*ssa.Function][]ssa.CallInstruction{} // non-nil: recursion sees phase 1 only
+		for _, ci := range P.dynCalls {
+			if callee := P.closureValue(ci.Common().Value, 0); callee != nil {
+				ho[callee] = append(ho[callee], ci)
+			}
+		}
+		P.callersHO = ho
+	}
+	if extra := P.callersHO[fn]; len(extra) > 0 {
+		return append(append([]ssa.CallInstruction{}, P.callers[fn]...), extra...)
 	}
 	return P.callers[fn]
 }
@@ -366,6 +442,21 @@ func (P *Program) closureValue(v ssa.Value, depth int) *ssa.Function {
 		if b := P.freeVarBinding(x); b != nil {
 			return P.closureValue(b, depth+1)
 		}
+	case *ssa.Parameter:
+		// function-typed parameter of a product helper: the literal every call site passes
+		if P.noParamCallee {
+			return nil
+		}
+		args := P.paramArgs(x)
+		var f *ssa.Function
+		for _, a := range args {
+			g := P.closureValue(a, depth+1)
+			if g == nil || (f != nil && g != f) {
+				return nil
+			}
+			f = g
+		}
+		return f
 	case *ssa.UnOp:
 		if x.Op != token.MUL {
 			return nil
